@@ -307,6 +307,9 @@ class Rec(object):
         return [l.id for (l, i) in self.chain]
 
 
+ISA_QUALIFIERS = ['ZZ', '01', '14', '20', '27', '28', '29', '30', '33']
+
+
 class Doc(object):
     def __init__(self):
         self.recs = []
@@ -692,7 +695,11 @@ def _gen_document(entry, rng, fill, maxrep, opt_prob, charset, rich, n_isa, n_gs
             if ctl_isa not in used_isa:
                 break
         used_isa.add(ctl_isa)
-        isa_vals = ['00', ' ' * 10, '00', ' ' * 10, 'ZZ', sender.ljust(15), 'ZZ', receiver.ljust(15),
+        if ii == 0:
+            # party id qualifiers: any pair of the defined codes, the same for all interchanges of one document (derived from the control
+            # number so that the draw sequence of the generator stays what it was)
+            quals = (ISA_QUALIFIERS[int(ctl_isa) % 9], ISA_QUALIFIERS[(int(ctl_isa) // 9) % 9])
+        isa_vals = ['00', ' ' * 10, '00', ' ' * 10, quals[0], sender.ljust(15), quals[1], receiver.ljust(15),
                     '240102', '1230', rep, icvn, ctl_isa, '0', rng.choice(['P', 'T']), ':']
         g.out.append(Rec(isa, isa_vals, list(ichain)))
         used_gs = set()
